@@ -163,4 +163,207 @@ theorem pruneEntries_items (f : Filter) :
       exact pruneEntries_items f rest pre
 end
 
+/-! ### transfers onto an existing destination -/
+
+theorem Entries.append_nil : ∀ a : Entries, a.append .nil = a
+  | .nil => rfl
+  | .cons n t rest => by simp [Entries.append, Entries.append_nil rest]
+
+theorem Entries.append_assoc : ∀ a b c : Entries, (a.append b).append c = a.append (b.append c)
+  | .nil, _, _ => rfl
+  | .cons n t rest, b, c => by simp [Entries.append, Entries.append_assoc rest b c]
+
+theorem Entries.names_append : ∀ a b : Entries, (a.append b).names = a.names ++ b.names
+  | .nil, _ => rfl
+  | .cons n t rest, b => by simp [Entries.append, Entries.names, Entries.names_append rest b]
+
+theorem Entries.find_append_notin : ∀ (pre ds : Entries) (n : String), n ∉ pre.names →
+    (pre.append ds).find n = ds.find n
+  | .nil, _, _, _ => rfl
+  | .cons m t rest, ds, n, h => by
+    simp only [Entries.names, List.mem_cons, not_or] at h
+    have hm : ¬ m = n := fun e => h.1 e.symm
+    simp [Entries.append, Entries.find, hm, Entries.find_append_notin rest ds n h.2]
+
+theorem Entries.set_append_notin : ∀ (pre ds : Entries) (n : String) (t : Tree), n ∉ pre.names →
+    (pre.append ds).set n t = pre.append (ds.set n t)
+  | .nil, _, _, _, _ => rfl
+  | .cons m d rest, ds, n, t, h => by
+    simp only [Entries.names, List.mem_cons, not_or] at h
+    have hm : ¬ m = n := fun e => h.1 e.symm
+    simp [Entries.append, Entries.set, hm, Entries.set_append_notin rest ds n t h.2]
+
+theorem Entries.find_notin : ∀ (ds : Entries) (n : String), n ∉ ds.names → ds.find n = none
+  | .nil, _, _ => rfl
+  | .cons m t rest, n, h => by
+    simp only [Entries.names, List.mem_cons, not_or] at h
+    have hm : ¬ m = n := fun e => h.1 e.symm
+    simp [Entries.find, hm, Entries.find_notin rest n h.2]
+
+theorem Entries.set_notin : ∀ (ds : Entries) (n : String) (t : Tree), n ∉ ds.names →
+    ds.set n t = ds.append (.cons n t .nil)
+  | .nil, _, _, _ => rfl
+  | .cons m d rest, n, t, h => by
+    simp only [Entries.names, List.mem_cons, not_or] at h
+    have hm : ¬ m = n := fun e => h.1 e.symm
+    simp [Entries.set, Entries.append, hm, Entries.set_notin rest n t h.2]
+
+theorem Entries.set_find_self : ∀ (ds : Entries) (n : String) (x : Tree), ds.find n = some x → ds.set n x = ds
+  | .nil, _, _, h => by simp [Entries.find] at h
+  | .cons m d rest, n, x, h => by
+    by_cases hm : m = n
+    · simp [Entries.find, hm] at h
+      simp [Entries.set, hm, h]
+    · simp [Entries.find, hm] at h
+      simp [Entries.set, hm, Entries.set_find_self rest n x h]
+
+/-- an entry that is neither file nor directory leaves the destination directory as it is -/
+theorem uploadDirOver_other_step (chunk : Nat) (f : Filter) (n : String) (rest ds : Entries)
+    (hp : passes f n = true) :
+    uploadDirOver chunk f (.cons n .other rest) ds = uploadDirOver chunk f rest ds := by
+  simp only [uploadDirOver, hp, if_true, uploadOver]
+  cases hf : ds.find n with
+  | none => rfl
+  | some x => simp [Entries.set_find_self ds n x hf]
+
+theorem prune_none_iff (f : Filter) (t : Tree) : prune f t = none ↔ t = .other := by
+  cases t <;> simp [prune]
+
+mutual
+/-- into an absent destination `uploadOver` is `upload` -/
+theorem uploadOver_absent (chunk : Nat) (hc : 1 ≤ chunk) (f : Filter) (ii : Bool) :
+    ∀ t : Tree, distinctNames t = true → uploadOver chunk f ii t none = outcome ii (prune f t)
+  | .dir es, hd => by
+    simp only [distinctNames] at hd
+    have := uploadDirOver_fresh chunk hc f es .nil hd (fun n _ h => by simp [Entries.names] at h)
+    simp only [Entries.append] at this
+    simp [uploadOver, prune, outcome, this]
+  | .file b, _ => by
+    simp only [uploadOver, prune, outcome, copyFile]
+    rw [copyLoop_spec chunk hc _ _ _ (Nat.lt_succ_self _)]
+    simp
+  | .other, _ => by
+    simp only [uploadOver, prune, outcome]
+theorem uploadDirOver_fresh (chunk : Nat) (hc : 1 ≤ chunk) (f : Filter) :
+    ∀ (es acc : Entries), distinctEntries es = true → (∀ n ∈ es.names, n ∉ acc.names) →
+      uploadDirOver chunk f es acc = .ok (acc.append (pruneEntries f es))
+  | .nil, acc, _, _ => by simp [uploadDirOver, pruneEntries, Entries.append_nil]
+  | .cons n t rest, acc, hd, hdis => by
+    simp only [distinctEntries, Bool.and_eq_true, Bool.not_eq_true', List.contains_eq_mem,
+      decide_eq_false_iff_not] at hd
+    obtain ⟨⟨hn, hdt⟩, hdr⟩ := hd
+    have hrest : ∀ m ∈ rest.names, m ∉ acc.names := fun m hm => hdis m (by simp [Entries.names, hm])
+    have hnacc : n ∉ acc.names := hdis n (by simp [Entries.names])
+    cases hp : passes f n with
+    | false =>
+      simp only [uploadDirOver, pruneEntries, hp, Bool.false_eq_true, if_false]
+      exact uploadDirOver_fresh chunk hc f rest acc hdr hrest
+    | true =>
+      cases hpr : prune f t with
+      | none =>
+        have ht := (prune_none_iff f t).mp hpr
+        subst ht
+        rw [uploadDirOver_other_step chunk f n rest acc hp]
+        simp only [pruneEntries, hp, if_true, prune]
+        exact uploadDirOver_fresh chunk hc f rest acc hdr hrest
+      | some pt =>
+        have h1 := uploadOver_absent chunk hc f true t hdt
+        rw [hpr] at h1
+        simp only [outcome] at h1
+        simp only [uploadDirOver, pruneEntries, hp, if_true, hpr, Entries.find_notin acc n hnacc, h1]
+        rw [Entries.set_notin acc n pt hnacc]
+        have := uploadDirOver_fresh chunk hc f rest (acc.append (.cons n pt .nil)) hdr (by
+          intro m hm hin
+          rw [Entries.names_append] at hin
+          simp only [Entries.names, List.mem_append, List.mem_cons, List.not_mem_nil, or_false] at hin
+          rcases hin with hin | hin
+          · exact hrest m hm hin
+          · subst hin; exact hn hm)
+        rw [this, Entries.append_assoc]
+        rfl
+end
+
+mutual
+/-- **the last transfer wins**: transferring `t` onto any destination that has the shape of what `t`
+transfers to (for instance what an earlier transfer of a tree with the same names left there) leaves exactly
+what `t` transfers to — every byte of every file replaced -/
+theorem uploadOver_sameShape (chunk : Nat) (hc : 1 ≤ chunk) (f : Filter) (ii : Bool) :
+    ∀ (t d pt : Tree), distinctNames t = true → prune f t = some pt → sameShape pt d = true →
+      uploadOver chunk f ii t (some d) = .ok (some pt)
+  | .dir es, d, pt, hd, hp, hs => by
+    simp only [prune, Option.some.injEq] at hp
+    subst hp
+    simp only [distinctNames] at hd
+    cases d with
+    | dir ds =>
+      simp only [sameShape] at hs
+      have := uploadDirOver_sameShape chunk hc f es .nil ds hd (fun n _ h => by simp [Entries.names] at h) hs
+      simp only [Entries.append] at this
+      simp [uploadOver, this]
+    | file b => simp [sameShape] at hs
+    | other => simp [sameShape] at hs
+  | .file b, d, pt, _, hp, hs => by
+    simp only [prune, Option.some.injEq] at hp
+    subst hp
+    cases d with
+    | file old =>
+      simp only [uploadOver, copyFile]
+      rw [copyLoop_spec chunk hc _ _ _ (Nat.lt_succ_self _)]
+      simp
+    | dir ds => simp [sameShape] at hs
+    | other => simp [sameShape] at hs
+  | .other, _, _, _, hp, _ => by simp [prune] at hp
+theorem uploadDirOver_sameShape (chunk : Nat) (hc : 1 ≤ chunk) (f : Filter) :
+    ∀ (es pre ds : Entries), distinctEntries es = true → (∀ n ∈ es.names, n ∉ pre.names) →
+      sameShapeEntries (pruneEntries f es) ds = true →
+      uploadDirOver chunk f es (pre.append ds) = .ok (pre.append (pruneEntries f es))
+  | .nil, pre, ds, _, _, hs => by
+    cases ds with
+    | nil => simp [uploadDirOver, pruneEntries]
+    | cons m d ds' => simp [pruneEntries, sameShapeEntries] at hs
+  | .cons n t rest, pre, ds, hd, hdis, hs => by
+    simp only [distinctEntries, Bool.and_eq_true, Bool.not_eq_true', List.contains_eq_mem,
+      decide_eq_false_iff_not] at hd
+    obtain ⟨⟨hn, hdt⟩, hdr⟩ := hd
+    have hrest : ∀ m ∈ rest.names, m ∉ pre.names := fun m hm => hdis m (by simp [Entries.names, hm])
+    have hnpre : n ∉ pre.names := hdis n (by simp [Entries.names])
+    cases hp : passes f n with
+    | false =>
+      simp only [pruneEntries, hp, Bool.false_eq_true, if_false] at hs ⊢
+      simp only [uploadDirOver, hp, Bool.false_eq_true, if_false]
+      exact uploadDirOver_sameShape chunk hc f rest pre ds hdr hrest hs
+    | true =>
+      cases hpr : prune f t with
+      | none =>
+        have ht := (prune_none_iff f t).mp hpr
+        subst ht
+        rw [uploadDirOver_other_step chunk f n rest _ hp]
+        simp only [pruneEntries, hp, if_true, prune] at hs ⊢
+        exact uploadDirOver_sameShape chunk hc f rest pre ds hdr hrest hs
+      | some pt =>
+        simp only [pruneEntries, hp, if_true, hpr] at hs ⊢
+        cases ds with
+        | nil => simp [sameShapeEntries] at hs
+        | cons m d0 ds' =>
+          simp only [sameShapeEntries, Bool.and_eq_true, beq_iff_eq] at hs
+          obtain ⟨⟨hnm, hsd⟩, hsr⟩ := hs
+          subst hnm
+          have h1 := uploadOver_sameShape chunk hc f true t d0 pt hdt hpr hsd
+          have hfind : (pre.append (.cons n d0 ds')).find n = some d0 := by
+            rw [Entries.find_append_notin pre _ n hnpre]; simp [Entries.find]
+          have hset : (pre.append (.cons n d0 ds')).set n pt = (pre.append (.cons n pt .nil)).append ds' := by
+            rw [Entries.set_append_notin pre _ n pt hnpre, Entries.append_assoc]
+            simp [Entries.set, Entries.append]
+          simp only [uploadDirOver, hp, if_true, hfind, h1, hset]
+          have := uploadDirOver_sameShape chunk hc f rest (pre.append (.cons n pt .nil)) ds' hdr (by
+            intro k hk hin
+            rw [Entries.names_append] at hin
+            simp only [Entries.names, List.mem_append, List.mem_cons, List.not_mem_nil, or_false] at hin
+            rcases hin with hin | hin
+            · exact hrest k hk hin
+            · subst hin; exact hn hk) hsr
+          rw [this, Entries.append_assoc]
+          rfl
+end
+
 end Rpyc.Files
